@@ -23,7 +23,8 @@ BadS == {
   Mod(Str(<<"num", "require", "map", "<", "vector", "<", "int", ">", ",", "int", ">", "name", ";">>)),
   Mod(<<"interface", "name", "{", "void", "name", "(", "int", "name", "[", "num", "]", ")", ";", "}", ";">>),
   Mod(<<"enum", "name", "{", "name", "=", "emem", "}", ";">>),
-  <<"module", "name", "{", "}">>
+  <<"module", "name", "{", "}">>,
+  Mod(<<"interface", "name", "{", "}", ";">>)
 }
 Why(s) == LET p == Parse(s) IN <<p.kind, p.why, p.t, Region(p.c)>>
 ASSUME \A s \in Good : Accepts(s)
